@@ -53,12 +53,18 @@ func (w *faultW) write(p []byte) (int, error) {
 		if w.short && idx == w.k {
 			h := len(p) / 2
 			w.buf.Write(p[:h])
-			return h, errBoom
+			return h, w.failErr()
 		}
-		return 0, errBoom
+		return 0, w.failErr()
 	}
 	return w.buf.Write(p)
 }
+
+// the error a failing destination reports: a plain error, io.ErrShortWrite (what a writer that
+// accepted fewer bytes typically reports) or io.ErrClosedPipe
+var destErrors = []error{errBoom, io.ErrShortWrite, io.ErrClosedPipe}
+
+func (w *faultW) failErr() error { return destErrors[w.k%len(destErrors)] }
 
 func (w *faultW) Write(p []byte) (int, error) { return w.write(p) }
 
